@@ -9,7 +9,9 @@ package main
 // existing backupFSTestHook variable.  Tree (6 items):
 //   src/f1  src/d1/  src/d1/f2  src/d1/d2/  src/d1/d2/f3  src/l1 -> f1
 // Faults per item
-//   file   : open-eacces (MakeReadable fails with EACCES), read-mid (Read fails
+//   file   : became-symlink (the O_NOFOLLOW open for reading fails with ELOOP: the
+//            file was replaced by a symlink after lstat; the item still exists),
+//            open-eacces (MakeReadable fails with EACCES), read-mid (Read fails
 //            with EIO after half of the file), vanish-open (OpenFile -> ENOENT),
 //            vanish-stat (lstat -> ENOENT), vanish-late (MakeReadable ->
 //            ENOENT), type-change (regular at lstat, not regular after open)
@@ -39,7 +41,7 @@ package main
 //   - runBackup returns nil or ErrInvalidSourceData, never another error, and a
 //     snapshot is saved in every case;
 //   - it returns ErrInvalidSourceData  <=>  some reached item has an effective
-//     non-vanish fault (open-eacces, read-mid, readdir, readdir-partial, type-change);
+//     non-vanish fault (open-eacces, became-symlink, read-mid, readdir, readdir-partial, type-change);
 //     vanish-open / vanish-stat never change the status.  vanish-late (the file
 //     is still there at lstat but gone at open) is left open: the statement's
 //     "between directory listing and opening" and the code comments ("ignore if
@@ -102,6 +104,8 @@ func (m *verifC55FS) OpenFile(name string, flag int, metadataOnly bool) (fs.File
 		switch k {
 		case "open-eacces":
 			return nil, verifC55Err("open", name, syscall.EACCES)
+		case "became-symlink":
+			return nil, verifC55Err("open", name, syscall.ELOOP)
 		case "vanish-stat", "vanish-late":
 			return nil, verifC55Err("open", name, syscall.ENOENT)
 		}
@@ -133,6 +137,9 @@ func (f *verifC55File) MakeReadable() error {
 	switch f.kind {
 	case "open-eacces":
 		return verifC55Err("open", f.name, syscall.EACCES)
+	case "became-symlink":
+		// the regular file was replaced by a symlink between lstat and the O_NOFOLLOW open for reading: the item still exists
+		return verifC55Err("open", f.name, syscall.ELOOP)
 	case "vanish-late":
 		return verifC55Err("open", f.name, syscall.ENOENT)
 	}
@@ -250,7 +257,7 @@ var verifC55Items = []verifC55Item{
 }
 
 var verifC55Faults = map[byte][]string{
-	'f': {"open-eacces", "read-mid", "vanish-open", "vanish-stat", "vanish-late", "type-change"},
+	'f': {"open-eacces", "read-mid", "vanish-open", "vanish-stat", "vanish-late", "type-change", "became-symlink"},
 	'd': {"open-eacces", "readdir", "readdir-partial", "vanish-open", "vanish-stat", "type-change"},
 	'l': {"vanish-open", "vanish-stat"},
 }
@@ -321,7 +328,7 @@ func verifC55Expectation(a verifC55Assignment, withParent bool) verifC55Expect {
 		k := a[it.Rel]
 		// with a parent snapshot an unchanged file is not opened: faults that
 		// strike at open/read time have no effect
-		if withParent && it.Kind == 'f' && (k == "open-eacces" || k == "read-mid" || k == "vanish-late" || k == "type-change") {
+		if withParent && it.Kind == 'f' && (k == "open-eacces" || k == "read-mid" || k == "vanish-late" || k == "type-change" || k == "became-symlink") {
 			k = ""
 		}
 		switch k {
